@@ -513,7 +513,7 @@ def gen_prio1_saturated(rng, tier, kind, cfg):
     good = [h for h in [1, 2, 3, 4, 6, 8, 12, 20, 40] if ref_nonfatal(ps, kind, h)]
     H = rng.choice(good[:5])
     ocap = rng.choice([1, 2, 4, max(H // 2, 1), H])
-    nsteps = rng.choice([10, 25, 40]) if tier == "quick" else rng.choice([40, 80, 150])
+    nsteps = rng.choice([10, 25, 40]) if tier == "quick" else rng.choice([25, 40, 60])
     ops = []
     ntake = 0
     for _ in range(nsteps):
@@ -813,7 +813,7 @@ def monitor_prio1(kind):
 
 def prio1_generate(fault_share=0.0, stop_share=0.0, styles=None):
     def generate(rng, tier):
-        n = 120 if tier == "quick" else 2500
+        n = 120 if tier == "quick" else (800 if styles == ["saturated"] else 2500)
         out = []
         for _ in range(n):
             stop = rng.choice(["stop", "cancel"]) if rng.random() < stop_share else None
